@@ -1,4 +1,5 @@
-(* C20 driver over the extracted transition system (coq/Sched/Handshake.v).
+(* C20 driver over the extracted transition systems (coq/Sched/Handshake.v; check mode: coq/Sched/HandshakeRetry.v,
+   the same system with refused import batches and the worker's retry wait).
    Trusted glue only: breadth-first enumeration, projection of paths to observable labels,
    subset simulation of an observed label sequence.  No model logic.
 
@@ -122,7 +123,16 @@ let projections c s0 =
 
 (* ---------------------------------------------------------------- subset simulation *)
 
-module StS = Set.Make (struct type t = state let compare = compare end)
+(* The check mode runs on the system WITH retry waits (coq/Sched/HandshakeRetry.v): a state of Handshake.v plus the
+   retry extension; [refuse] = the refusals the environment may cause (the harness reports the number of rolled-back
+   import batches it saw, "kx"; 0 for every family that has none: then the system has exactly the steps of
+   Handshake.v, C20_retry_embeds_handshake). *)
+let rlabel_name = function
+  | Lb l -> label_name l | Lkx -> "kx" | Tkresx -> "_kresx" | Trtick -> "_rtick" | Trquit -> "_rquit"
+
+let rcfg_of c seeded = { bcfg = c; wait_while_queued = seeded }
+
+module StS = Set.Make (struct type t = rstate let compare = compare end)
 
 let tau_closure c set =
   let res = ref set in
@@ -131,8 +141,8 @@ let tau_closure c set =
   while not (Queue.is_empty q) do
     let s = Queue.pop q in
     List.iter (fun (l, s') ->
-        if not (observable l) && not (StS.mem s' !res) then begin res := StS.add s' !res; Queue.add s' q end)
-      (step_l c s)
+        if not (robservable l) && not (StS.mem s' !res) then begin res := StS.add s' !res; Queue.add s' q end)
+      (rstep_l c s)
   done;
   !res
 
@@ -143,12 +153,17 @@ let final_states c s0 (obs : string list) =
   List.iter (fun o ->
       if !ok then begin
         let next = StS.fold (fun s acc ->
-            List.fold_left (fun acc (l, s') -> if observable l && label_name l = o then StS.add s' acc else acc) acc (step_l c s))
+            List.fold_left (fun acc (l, s') -> if robservable l && rlabel_name l = o then StS.add s' acc else acc) acc (rstep_l c s))
             !cur StS.empty in
         if StS.is_empty next then ok := false
         else begin cur := tau_closure c next; incr consumed end
       end) obs;
   ((!ok, !consumed), (if !ok then !cur else StS.empty))
+
+(* the livelock of the seeded variant (C20_retry_wait_while_queued_refuted): handler gone, blocks still queued, the
+   worker in a retry wait that only an empty queue ends *)
+let spinning c s =
+  c.wait_while_queued && s.ext.rwait && s.base.hpc = Hdone && s.base.spc = Swait && s.base.qb <> O
 
 let accepts c s0 (obs : string list) (outcome : string) =
   let ((ok0, consumed0), fin) = final_states c s0 obs in
@@ -157,10 +172,13 @@ let accepts c s0 (obs : string list) (outcome : string) =
   else begin
     let ex p = StS.exists p !cur in
     match outcome with
-    | "stopped" -> if ex (fun s -> s.spc = Sdone) then (true, "") else (false, "not-stopped-in-model")
-    | "hang" -> if ex (fun s -> step c s = [] && s.spc <> Sdone && s.spc <> Sidle) then (true, "model-deadlock") else (false, "hang-not-a-model-deadlock")
-    | "idle" -> if ex (fun s -> step c s = [] && s.spc = Sidle) then (true, "") else (false, "idle-not-terminal-in-model")
-    | "panic" -> if ex (fun s -> s.panicked) then (true, "model-panic") else (false, "panic-not-in-model")
+    | "stopped" -> if ex (fun s -> s.base.spc = Sdone) then (true, "") else (false, "not-stopped-in-model")
+    | "hang" ->
+      if ex (fun s -> rstep_l c s = [] && s.base.spc <> Sdone && s.base.spc <> Sidle) then (true, "model-deadlock")
+      else if ex (spinning c) then (true, "model-spin")
+      else (false, "hang-not-a-model-deadlock")
+    | "idle" -> if ex (fun s -> rstep_l c s = [] && s.base.spc = Sidle) then (true, "") else (false, "idle-not-terminal-in-model")
+    | "panic" -> if ex (fun s -> s.base.panicked) then (true, "model-panic") else (false, "panic-not-in-model")
     | _ -> (false, "unknown-outcome")
   end
 
@@ -217,19 +235,28 @@ let () =
                start_state c (nat_of_int sc.blocks) (tasks_of_string sc.reqs) (tasks_of_string sc.rst) sc.stop
              | _ -> init_of c sc in
            let show (ok, why) = (if ok then "acc" else "rej") ^ (if why = "" then "" else ":" ^ why) in
+           let refuse = nat_of_int (int_of_string (g "refuse" "0")) in
+           let rinit_of c = rinit (init c) refuse in
            let res found =
              let c = match nw with Some w -> { (mk_cfg found) with cap = start_cap w } | None -> mk_cfg found in
-             show (accepts c (init c) obs outcome) in
+             show (accepts (rcfg_of c false) (rinit_of c) obs outcome) in
            (match nw with
+            | None when field line "rs" <> None ->
+              (* retry-stop lines: also, would the seeded variant (pause repeated while the block queue is non-empty)
+                 explain the observation?  diagnosis only *)
+              let c = mk_cfg false in
+              Printf.printf "%s found=%s repaired=%s seeded=%s\n" line (res true) (res false)
+                (show (accepts (rcfg_of c true) (rinit_of c) obs outcome))
             | None -> Printf.printf "%s found=%s repaired=%s\n" line (res true) (res false)
             | Some _ ->
               (* diagnosis only: would a queue of max MaxWaitingTaskNum (unfinished tasks) slots explain the
                  observation, with a dropped task in its final state?  (C20_requeue_dropped_refuted) *)
               let nrst = List.length (tasks_of_string sc.rst) in
               let ct = cfg_cap (nat_of_int (max (int_of_nat busy_threshold) nrst)) in
-              let (ok, why) = accepts ct (init ct) obs outcome in
-              let dropped = ok && (let (_, fin) = final_states ct (init ct) obs in
-                                   StS.exists (fun s -> step ct s = [] && int_of_nat s.gh.n_drop > 0) fin) in
+              let rct = rcfg_of ct false in
+              let (ok, why) = accepts rct (rinit_of ct) obs outcome in
+              let dropped = ok && (let (_, fin) = final_states rct (rinit_of ct) obs in
+                                   StS.exists (fun s -> rstep_l rct s = [] && int_of_nat s.base.gh.n_drop > 0) fin) in
               Printf.printf "%s found=%s repaired=%s tight=%s%s\n" line (res true) (res false) (show (ok, why))
                 (if dropped then ":dropped" else ""))
          end else print_endline line
